@@ -29,6 +29,7 @@ type AProc struct {
 	Foreground bool              `json:"foreground"`
 	Probe      map[string]string `json:"-"` // readiness probe fields (exec.command / http_get.*)
 	ProbeKind  string            `json:"-"`
+	ProbeLive  bool              `json:"-"` // the probe is the liveness probe (default: readiness)
 	Extra      []string          `json:"-"` // raw YAML lines (already indented) for options without a slot above
 }
 
@@ -142,7 +143,11 @@ func (f *AFile) Render() string {
 		}
 		if p.ProbeKind != "" {
 			wrote = true
-			b.WriteString("    readiness_probe:\n")
+			if p.ProbeLive {
+				b.WriteString("    liveness_probe:\n")
+			} else {
+				b.WriteString("    readiness_probe:\n")
+			}
 			if p.ProbeKind == "exec" {
 				fmt.Fprintf(&b, "      exec:\n        command: %s\n", yq(p.Probe["command"]))
 			} else {
